@@ -102,7 +102,7 @@ pub fn full_menu() -> Vec<Expr> {
             m.push(t(Test::Perm(k, b)));
         }
     }
-    for p in ["file.txt", "FILE.TXT", "*.txt", "f?le*", "[a-f]*", "dir/*"] {
+    for p in ["file.txt", "FILE.TXT", "*.txt", "f?le*", "[a-f]*", "dir/*", "отчёт*", "ΑΘΗΝΑ", "*.[0-9]", "Ünï?"] {
         m.push(t(Test::Name(p.into())));
         m.push(t(Test::IName(p.into())));
         m.push(t(Test::Path(p.into())));
@@ -146,7 +146,7 @@ pub fn full_menu() -> Vec<Expr> {
     m.push(a(Action::Printf(vec![lit("100%"), Fmt::Field(Field::Percent), lit(" ~a ~~ "), NL])));
     m.push(a(Action::Printf(vec![Fmt::Field(Field::Name), lit(" "), Fmt::Field(Field::SizeBytes), lit(" "), Fmt::Field(Field::UserId), NL])));
     m.push(a(Action::FPrintf("f".into(), vec![Fmt::Field(Field::NameNoStart), NL])));
-    m.push(a(Action::FPrintf("g".into(), vec![Fmt::Field(Field::Basename)])));
+    m.push(a(Action::FPrintf("g".into(), vec![Fmt::Field(Field::Name)])));
     m
 }
 
@@ -198,7 +198,7 @@ pub fn mid_menu() -> Vec<Expr> {
         a(Action::Printf(vec![Fmt::Field(Field::Name)])),
         a(Action::Printf(vec![Fmt::Field(Field::SizeBytes), lit(" "), Fmt::Field(Field::UserId), NL])),
         a(Action::FPrintf("f".into(), vec![Fmt::Field(Field::NameNoStart), NL])),
-        a(Action::FPrintf("g".into(), vec![Fmt::Field(Field::Basename)])),
+        a(Action::FPrintf("g".into(), vec![Fmt::Field(Field::Name)])),
         a(Action::Printf(vec![lit("a"), Fmt::Special(Special::Tab), lit("b"), NL])),
     ]
 }
@@ -252,6 +252,103 @@ fn has_print_fid(e: &Expr) -> bool {
     f
 }
 
+fn unix_now() -> u64 {
+    std::time::SystemTime::now().duration_since(std::time::UNIX_EPOCH).map(|d| d.as_secs()).unwrap_or(0)
+}
+
+/// Translation validation after a history on the same thread: a compile that is refused part-way
+/// (a time test before the refused construct), a compile that succeeds, a pause, then the tree
+/// under validation.  The reference has no history, so every disagreement is the subject's.
+fn histories() -> Acc {
+    let t = |x: Test| Expr::Test(x);
+    let a = |x: Action| Expr::Action(x);
+    let refused = vec![
+        Expr::and(t(Test::MTime(Cmp::Lt, 5, TimeUnit::Min)), t(Test::User("alice".into()))),
+        Expr::and(t(Test::MTime(Cmp::Gt, 30, TimeUnit::Day)), a(Action::Ls)),
+        Expr::or(t(Test::ATime(Cmp::Eq, 1, TimeUnit::Min)), t(Test::Regex("x".into()))),
+        Expr::and(t(Test::User("alice".into())), t(Test::MTime(Cmp::Lt, 5, TimeUnit::Min))),
+        Expr::and(Expr::and(t(Test::Name("a".into())), a(Action::FPrint("o".into()))), a(Action::Prune)),
+        a(Action::Printf(vec![Fmt::Field(Field::AccessFmt('T')), Fmt::Special(Special::Newline)])),
+    ];
+    let accepted = vec![
+        Expr::and(t(Test::CTime(Cmp::Gt, 2, TimeUnit::Min)), a(Action::FPrint("p".into()))),
+        t(Test::Size(Cmp::Lt, 7, SizeUnit::Kilo)),
+        Expr::and(t(Test::Name("z*".into())), a(Action::Print0)),
+    ];
+    let targets = vec![
+        Expr::and(t(Test::MTime(Cmp::Lt, 5, TimeUnit::Min)), t(Test::Uid(Cmp::Eq, 1001))),
+        Expr::or(t(Test::ATime(Cmp::Gt, 1, TimeUnit::Day)), t(Test::CTime(Cmp::Eq, 3333, TimeUnit::Min))),
+        Expr::and(t(Test::Name("file*".into())), a(Action::FPrint("out".into()))),
+        Expr::and(t(Test::IName("F*".into())), a(Action::Printf(vec![Fmt::Field(Field::Name), Fmt::Special(Special::Newline)]))),
+        Expr::and(t(Test::Perm(PermKind::AtLeast, 0o600)), a(Action::Print)),
+    ];
+    let mut hists: Vec<Vec<(u8, usize)>> = vec![];
+    // (kind, index): 0 = refused compile, 1 = accepted compile, 2 = pause of 1.1 s
+    for r in 0..refused.len() {
+        hists.push(vec![(0, r), (2, 0)]);
+        hists.push(vec![(0, r)]);
+        for s in 0..accepted.len() {
+            hists.push(vec![(1, s), (0, r), (2, 0)]);
+            hists.push(vec![(0, r), (2, 0), (1, s)]);
+        }
+    }
+    for s in 0..accepted.len() {
+        hists.push(vec![(1, s), (2, 0)]);
+        hists.push(vec![(1, s), (1, (s + 1) % accepted.len())]);
+    }
+    let handles: Vec<_> = hists
+        .into_iter()
+        .map(|h| {
+            let (refused, accepted, targets) = (refused.clone(), accepted.clone(), targets.clone());
+            std::thread::Builder::new()
+                .stack_size(64 << 20)
+                .spawn(move || {
+                    let mut acc = Acc::new();
+                    let opts = subject::options(false, None);
+                    for target in &targets {
+                        let mut told = vec![];
+                        for (k, i) in &h {
+                            match k {
+                                0 | 1 => {
+                                    let e = if *k == 0 { &refused[*i] } else { &accepted[*i] };
+                                    if let Some(real) = conv::expr_to_real(e) {
+                                        let r = compile_render(&real, &opts, "/dev/h");
+                                        told.push(format!("compile({}) -> {}", e.show(), match r { C::Ok(_) => "ok", C::Err(_) => "refused", C::Panic(_) => "panic" }));
+                                    }
+                                }
+                                _ => {
+                                    std::thread::sleep(std::time::Duration::from_millis(1100));
+                                    told.push("pause 1.1 s".into());
+                                }
+                            }
+                        }
+                        let Some(real) = conv::expr_to_real(target) else { continue };
+                        acc.states += 1;
+                        acc.transitions += h.len() as u64 + 1;
+                        acc.count("histories", 1);
+                        match validate(target, &real, &mut acc) {
+                            Ok(_) => acc.validated += 1,
+                            Err(m) => acc.violate(Violation::new(
+                                format!("C02:{}:after-a-history", m.aspect),
+                                format!("{} compiled after [{}] on the same thread: {}", target.show(), told.join("; "), m.detail),
+                                json!({"kind": "history", "history": told, "tree": target}),
+                            )),
+                        }
+                    }
+                    acc
+                })
+                .unwrap()
+        })
+        .collect();
+    let mut acc = Acc::new();
+    for h in handles {
+        if let Ok(a) = h.join() {
+            acc = acc.merge(a);
+        }
+    }
+    acc
+}
+
 #[derive(Debug)]
 pub struct Mismatch {
     pub aspect: &'static str,
@@ -264,6 +361,7 @@ pub fn validate(tree: &Expr, real: &lipe_find_parser::ast::Expression, acc: &mut
     let opts = subject::options(false, None);
     let mut attempt = 0;
     let (forms, io, now) = loop {
+        let t0 = unix_now();
         let (text, io) = match compile_render(real, &opts, "/dev/mdt0") {
             C::Ok(v) => v,
             C::Err(e) => {
@@ -284,7 +382,14 @@ pub fn validate(tree: &Expr, real: &lipe_find_parser::ast::Expression, acc: &mut
         clocks.dedup();
         match clocks.len() {
             0 => break (forms, io, 1_700_000_000u64),
-            1 => break (forms, io, clocks[0]),
+            1 => {
+                // 'now' in the policy is the moment of this compile call (find: the moment it started)
+                let t1 = unix_now();
+                if (clocks[0] < t0 || clocks[0] > t1) && t0 <= t1 {
+                    return Err(Mismatch { aspect: "embedded-now-outside-the-compile-call", detail: format!("the policy's time tests use now={} but compile() was called between {t0} and {t1}", clocks[0]) });
+                }
+                break (forms, io, clocks[0]);
+            }
             _ => {
                 attempt += 1;
                 if attempt > 5 {
@@ -553,6 +658,8 @@ pub fn run(ctx: &Ctx) -> i32 {
         Tier::Quick => {
             acc = acc.merge(all_trees_exact(2, &mid, true, true));
             bound.push(format!("all 2-leaf trees over {} leaves x 3 operators x negation of each operand and of the root", mid.len()));
+            acc = acc.merge(all_trees_exact(2, &full, false, false));
+            bound.push(format!("all 2-leaf trees over the full menu ({} leaves) x 3 operators", full.len()));
             acc = acc.merge(all_trees_exact(3, &c16, false, false));
             bound.push("all 3-leaf trees over a 16-leaf core".into());
             acc = acc.merge(all_trees_exact(3, &c8, true, false));
@@ -586,10 +693,12 @@ pub fn run(ctx: &Ctx) -> i32 {
             acc
         };
         larges.push(fold((0..k).map(|i| Expr::and(t(Test::Name(format!("n{i}"))), a(Action::FPrint(format!("f{i}"))))).collect()));
-        larges.push(fold((0..k).map(|i| Expr::and(t(Test::IName(format!("N{i}*"))), a(if i % 2 == 0 { Action::Print } else { Action::Printf(vec![Fmt::Field(Field::Basename), lit(&format!(" {i}")), NL]) }))).collect()));
+        larges.push(fold((0..k).map(|i| Expr::and(t(Test::IName(format!("N{i}*"))), a(if i % 2 == 0 { Action::Print } else { Action::Printf(vec![Fmt::Field(Field::Name), lit(&format!(" {i}")), NL]) }))).collect()));
         larges.push(fold((0..k).map(|i| Expr::and(t(Test::Path(format!("p{i}/*"))), a(Action::FPrintf(format!("g{}", i / 2), vec![Fmt::Field(Field::NameNoStart), lit(&format!("#{i}"))])))).collect()));
     }
     acc = acc.merge(par_items(&larges, |e, acc| check_tree(e, false, acc)));
+    acc = acc.merge(histories());
+    bound.push("5 target trees validated after each of 50 same-thread histories (refused compile with a time test before/after the refused construct, accepted compile, pause of 1.1 s, in the orders that matter)".into());
     bound.push(format!("programs of {:?} clauses, each clause with its own matcher and printer (file / stdout / formatted), three families", ks));
     let mut extra = serde_json::Map::new();
     extra.insert("leaf_menu_sizes".into(), json!({"full": full.len(), "mid": mid.len(), "core16": c16.len(), "core8": c8.len()}));
@@ -613,6 +722,9 @@ pub fn run(ctx: &Ctx) -> i32 {
 
 pub fn replay(w: &Value) -> Vec<Violation> {
     let mut acc = Acc::new();
+    if w["kind"] == "history" {
+        return histories().violations.into_values().map(|(v, _)| v).collect();
+    }
     if let Ok(tree) = serde_json::from_value::<Expr>(w["tree"].clone()) {
         check_tree(&tree, w["text_route"].as_bool().unwrap_or(false), &mut acc);
     }
